@@ -192,6 +192,37 @@ Definition ok_C13 (pre : list jid) (hs : list (list (op * out))) (fin : list jid
   && forallb (fun h => owned_go [] h && ryw_go [] h) hs
   && nodupb jid_eqb fin && inclb fin (pre ++ created hs) && inclb (pre ++ created hs) fin.
 
+(* ---------- what was created stays: no KeyError on an id that was handed out earlier ---------- *)
+Definition op_job (o : op) : option jid :=
+  match o with
+  | StoreJob j _ _ | StoreJobIn j _ _ | StoreJobOut j _ | StoreJobStatus j _ | StoreMeta j _ _
+  | LoadJob j | LoadJobStatus j => Some j
+  | _ => None
+  end.
+
+Definition op_search (o : op) : option Z :=
+  match o with
+  | CreateJob s | StoreSearchValue s _ _ | LoadAllJobIds s | LoadSearch s | LoadMetaAll s _ | LoadOutAll s => Some s
+  | _ => None
+  end.
+
+Definition is_ekey (x : out) : bool := match x with OErr EKey => true | _ => false end.
+
+Definition known_s (ks : list Z) (x : out) : list Z := match x with OSid s => s :: ks | _ => ks end.
+Definition known_j (kj : list jid) (x : out) : list jid := match x with OJid j => j :: kj | _ => kj end.
+
+Definition exist_ev (ks : list Z) (kj : list jid) (o : op) (x : out) : bool :=
+  negb (is_ekey x && (match op_job o with Some j => memb jid_eqb j kj | None => false end
+                      || match op_search o with Some s => memb Z.eqb s ks | None => false end)).
+
+Fixpoint exist_go (ks : list Z) (kj : list jid) (h : list (op * out)) : bool :=
+  match h with
+  | [] => true
+  | (o, x) :: t => exist_ev ks kj o x && exist_go (known_s ks x) (known_j kj x) t
+  end.
+
+Definition ok_exist (h : list (op * out)) : bool := exist_go [] [] h.
+
 (* ====================================================================================================== *)
 (* What the oracles mean                                                                                  *)
 (* ====================================================================================================== *)
@@ -349,4 +380,52 @@ Proof.
     destruct H2 as [Ho Hr]. split; [assumption | apply ok_ryw_sound; assumption].
   - split; [apply (nodupb_spec jid jid_eqb jid_eqb_eq); assumption|].
     intros j. split; [apply inclb_spec; assumption | apply inclb_spec; assumption].
+Qed.
+
+(* ---------- created ids stay ---------- *)
+Definition Spec_exist (h : list (op * out)) : Prop :=
+  forall h1 o x h2 o' x' h3,
+    h = h1 ++ (o, x) :: h2 ++ (o', x') :: h3 ->
+    (exists j, x = OJid j /\ op_job o' = Some j) \/ (exists s, x = OSid s /\ op_search o' = Some s) ->
+    x' <> OErr EKey.
+
+Lemma is_ekey_spec : forall x, is_ekey x = true <-> x = OErr EKey.
+Proof. intros x. destruct x as [| | | | | | | | | | |e]; cbn [is_ekey]; try (split; [discriminate | intros H; inversion H]). destruct e; split; intros H; try discriminate H; try reflexivity; inversion H. Qed.
+
+Lemma known_j_incl : forall kj x j, In j kj -> In j (known_j kj x).
+Proof. intros kj x j H. unfold known_j. destruct x; auto. right. assumption. Qed.
+Lemma known_s_incl : forall ks x s, In s ks -> In s (known_s ks x).
+Proof. intros ks x s H. unfold known_s. destruct x; auto. right. assumption. Qed.
+
+Lemma exist_go_known : forall h ks kj, exist_go ks kj h = true ->
+  forall h2 o' x' h3, h = h2 ++ (o', x') :: h3 ->
+  ((exists j, In j kj /\ op_job o' = Some j) \/ (exists s, In s ks /\ op_search o' = Some s)) -> x' <> OErr EKey.
+Proof.
+  induction h as [|[o1 x1] t IH]; intros ks kj Hgo h2 o' x' h3 Heq Hk.
+  - destruct h2; discriminate Heq.
+  - cbn [exist_go] in Hgo. apply andb_true_iff in Hgo. destruct Hgo as [Hev Hgo].
+    destruct h2 as [|e2 h2'].
+    + cbn [app] in Heq. inversion Heq. subst. intros Hx. unfold exist_ev in Hev. apply negb_true_iff in Hev.
+      apply andb_false_iff in Hev. destruct Hev as [Hev|Hev].
+      * rewrite (proj2 (is_ekey_spec _) Hx) in Hev. discriminate Hev.
+      * apply orb_false_iff in Hev. destruct Hev as [E1 E2]. destruct Hk as [[j [Hin Hj]] | [s [Hin Hs]]].
+        -- rewrite Hj in E1. apply (memb_in jid jid_eqb jid_eqb_eq) in Hin. congruence.
+        -- rewrite Hs in E2. apply (memb_in Z Z.eqb Z.eqb_eq) in Hin. congruence.
+    + cbn [app] in Heq. inversion Heq. subst. eapply (IH _ _ Hgo); [reflexivity|].
+      destruct Hk as [[j [Hin Hj]] | [s [Hin Hs]]]; [left | right].
+      * exists j. split; [apply known_j_incl; assumption | assumption].
+      * exists s. split; [apply known_s_incl; assumption | assumption].
+Qed.
+
+Theorem ok_exist_sound : forall h, ok_exist h = true -> Spec_exist h.
+Proof.
+  unfold ok_exist. intros h. generalize (@nil Z) as ks. generalize (@nil jid) as kj.
+  induction h as [|[o1 x1] t IH]; intros kj ks Hgo h1 o x h2 o' x' h3 Heq Hk.
+  - destruct h1; discriminate Heq.
+  - cbn [exist_go] in Hgo. apply andb_true_iff in Hgo. destruct Hgo as [_ Hgo].
+    destruct h1 as [|e1 h1'].
+    + cbn [app] in Heq. inversion Heq. subst.
+      eapply (exist_go_known _ _ _ Hgo); [reflexivity|].
+      destruct Hk as [[j [-> Hj]] | [s [-> Hs]]]; [left; exists j | right; exists s]; cbn [known_j known_s]; auto with datatypes.
+    + cbn [app] in Heq. inversion Heq. subst. eapply IH; eauto.
 Qed.
